@@ -121,7 +121,7 @@ def build(name, driver_srcs, repo_srcs, san="asan", defines=(), extra_flags=(), 
 
 
 def build_automata(san="asan"):
-    return build("run_automata", ["run_automata.c", "vport.c"], CORE, san=san, gen={"glue.inc": extract_glue()})
+    return build("run_automata", ["run_automata.c", "vport.c"], CORE + ["os/esp32/daemon/lltd_esp32.c"], san=san, gen={"glue.inc": extract_glue()})
 
 
 def build_registry(san="asan"):
